@@ -10,12 +10,20 @@ for d in sorted(glob.glob("/verif/seeded/*/")):
         continue
     ev = m.get("evaluation") or {}
     checks = ev.get("checks") or {}
-    det = ", ".join(ev.get("detected_by") or []) or "—"
+    rounds = ev.get("earlier_rounds") or []
+    allr = list(rounds) + [{"detected_by": ev.get("detected_by")}]
+    detset = []
+    for r in allr:
+        for p in (r.get("detected_by") or []):
+            if p not in detset:
+                detset.append(p)
+    det = ", ".join(detset) or "—"
+    first = "yes" if (allr[0].get("detected_by")) else "no (check strengthened, %d round%s)" % (len(allr), "s" if len(allr) > 1 else "")
     ran = ", ".join("%s:%s" % (k, "VIOLATION" if v.get("rc") == 1 else ("ok" if v.get("rc") == 0 else "tool-error rc=%s" % v.get("rc"))) for k, v in sorted(checks.items()))
     files = ", ".join(sorted({f for f in m.get("files_changed", [])}))[:90]
     summ = " ".join((m.get("summary") or "").split())
     summ = summ[:260] + ("…" if len(summ) > 260 else "")
-    rows.append("| %s | %s | %s | %s | %s | %s |" % (tag, m.get("property"), "yes" if ev.get("confirmed") else "NO", det, ran, summ.replace("|", "/")))
-print("| seed | property | confirmed (demo fails with / passes without; existing tests pass) | detected by | checks run | change |")
-print("|---|---|---|---|---|---|")
+    rows.append("| %s | %s | %s | %s | %s | %s | %s |" % (tag, m.get("property"), "yes" if ev.get("confirmed") else "NO", first, det, ran, summ.replace("|", "/")))
+print("| seed | property | confirmed (demo fails with / passes without; existing tests pass) | caught in the first round | detected by | checks run (last round) | change |")
+print("|---|---|---|---|---|---|---|")
 print("\n".join(rows))
